@@ -19,7 +19,7 @@ EXPLANATION = (
     "only where the order facts give day_submerged <= LagAer (strict guard before the integer increment), so it is >= 0. C04.e: the net-irrigation refill raises (or lowers) each compartment towards the threshold of its own layer - "
     "the per-layer threshold is recomputed from the compartment's own wilting point / field capacity at every layer change and the "
     "root-zone-average threshold computed before the loop cannot reach the refill (reaching definitions + the layer-change idiom) - "
-    "the structural half of the non-negativity of the net requirement. C04.f: every definition of the curve number reaching the retention formula S = 25400/cn - 254 is a clamp to at most 100, so S >= 0 and 0 <= runoff <= rain. C04.g (structural half of Es <= EsPot): soil_evaporation's demand ledger - remaining demand + actual evaporation is invariant from its definition to the return (linear template), and every stage potential is defined as min(remaining demand, .) or as a per-sub-step fraction of it. C04.h (structural half of Tr <= TrPot): the root-extraction loop's ledger - remaining demand + actual transpiration invariant through the loop (induction), and the per-compartment sink taken off the ledger has passed the cap against the remaining demand expressed as a water content of the same compartment (later definitions only lower it). C04.i (structural half of DeepPerc >= 0): every comparison in drainage that involves a field capacity uses the adjusted field capacity of the day; the plain value appears in arithmetic only. C04.j = C03.h (the two evaporation extraction loops agree; without the clamp of negative available water the actual evaporation goes negative). NOT decided: the numeric inequalities themselves, non-negativity of DeepPerc / CR / GwIn / Runoff / Es "
+    "the structural half of the non-negativity of the net requirement. C04.f: every definition of the curve number reaching the retention formula S = 25400/cn - 254 is a clamp to at most 100, so S >= 0 and 0 <= runoff <= rain. C04.g (structural half of Es <= EsPot): soil_evaporation's demand ledger - remaining demand + actual evaporation is invariant from its definition to the return (linear template), and every stage potential is defined as min(remaining demand, .) or as a per-sub-step fraction of it. C04.h (structural half of Tr <= TrPot): the root-extraction loop's ledger - remaining demand + actual transpiration invariant through the loop (induction), and the per-compartment sink taken off the ledger has passed the cap against the remaining demand expressed as a water content of the same compartment (later definitions only lower it). C04.i (structural half of DeepPerc >= 0): every comparison in drainage that involves a field capacity uses the adjusted field capacity of the day; the plain value appears in arithmetic only. C04.j = C03.h (the two evaporation extraction loops agree; without the clamp of negative available water the actual evaporation goes negative). C04.k: extraction amounts (added to the evaporation total and taken off the compartment's water) are non-negative on every path into the block. C04.l: the three logistic stress curves (cold stress on transpiration, heat / cold stress on pollination) are evaluated only after their argument was compared with both ends of its interval. NOT decided: the numeric inequalities themselves, non-negativity of DeepPerc / CR / GwIn / Runoff / Es "
     "(numeric, depend on run-time water contents).")
 
 
@@ -138,6 +138,7 @@ def run(chk, prog, tier):
     from ._siblings import evap_stage_agreement
     evap_stage_agreement(chk, prog, "C04.j")
     rule_k(chk, prog)
+    rule_l(chk, prog)
     chk.assume("A-1")
     chk.exhaustive = True
 
@@ -596,3 +597,65 @@ def rule_k(chk, prog):
                     else:
                         chk.ok("C04.k", where, construct, f"`{a}` is non-negative on every path into the block")
     chk.floor("C04.k", n, 4, "extraction blocks (amount added to the flux and taken off the water depth)")
+
+
+def _relpos(e):
+    """(x, a, b) for e = (x - a)/(b - a) or (b - x)/(b - a) (any of the two endpoints of the denominator in the numerator), else None"""
+    if isinstance(e, ast.BinOp) and isinstance(e.op, ast.Div) and isinstance(e.left, ast.BinOp) and isinstance(e.left.op, ast.Sub) \
+            and isinstance(e.right, ast.BinOp) and isinstance(e.right.op, ast.Sub):
+        p, q, r, s = map(norm, (e.left.left, e.left.right, e.right.left, e.right.right))
+        ends = {r, s}
+        if len(ends) == 2:
+            if q in ends and p not in ends:
+                return p, q, (ends - {q}).pop()
+            if p in ends and q not in ends:
+                return q, p, (ends - {p}).pop()
+    return None
+
+
+def rule_l(chk, prog):
+    """C04.l (logistic stress curves are evaluated inside their interval only - sibling rule over the three curves of the package): a stress
+    coefficient computed as U*L/(L + (U - L)*exp(-k*r)) takes its argument r from a relative position (x - lo)/(up - lo) (or its mirror); outside
+    [lo, up] the curve (and the linear correction added to it) leaves [0, 1] - negative for x < lo. Both endpoints must have been compared
+    with x among the tests controlling the evaluation (`x >= up` -> 1, `x <= lo` -> 0, else the curve)."""
+    from ..rdef import flow_of, ENTRY
+    from ..model import walk_no_nested
+    n = 0
+    for key, fi in sorted(prog.funcs.items()):
+        if ".solution." not in key:
+            continue
+        flow = None
+        for st in walk_no_nested(fi.node):
+            if not (isinstance(st, ast.Assign) and isinstance(st.targets[0], ast.Name) and isinstance(st.value, ast.BinOp) and isinstance(st.value.op, ast.Div)):
+                continue
+            den = st.value.right
+            exps = [c for c in ast.walk(den) if isinstance(c, ast.Call) and norm(c.func) in ("np.exp", "numpy.exp", "math.exp", "exp")]
+            if not exps or not (isinstance(st.value.left, ast.BinOp) and isinstance(st.value.left.op, ast.Mult)):
+                continue
+            # the relative position the exponent reads
+            flow = flow or flow_of(fi)
+            cfg = flow.cfg
+            nid = flow.stmt_node.get(id(st))
+            rel = None
+            for nm in [x for x in ast.walk(exps[0]) if isinstance(x, ast.Name)]:
+                for d in (flow.defs_reaching(nm.id, nid) if nid is not None else []):
+                    a = cfg.nodes[d].ast if d != ENTRY else None
+                    if isinstance(a, ast.Assign) and _relpos(a.value):
+                        rel = (a, d, _relpos(a.value))
+            if rel is None:
+                continue
+            n += 1
+            chk.fn(key)
+            a, d, (x, lo, up) = rel
+            where = f"{fi.module}:{fi.qualname}"
+            construct = f"{st.targets[0].id} = logistic({norm(a.targets[0])}), {norm(a)}"
+            tests = [cfg.nodes[t].ast for t, l in cfg.transitive_control_deps(d) if cfg.nodes[t].kind == "test" and isinstance(cfg.nodes[t].ast, ast.Compare)]
+            def compared(e):
+                return any({norm(c.left), norm(c.comparators[0])} == {x, e} for c in tests if len(c.ops) == 1)
+            missing = [e for e in (lo, up) if not compared(e)]
+            if missing:
+                chk.violation("C04.l", where, construct, f"the curve is evaluated without `{x}` having been compared with {' and '.join(missing)}: beyond that end the relative "
+                              "position leaves [0, 1] and the coefficient leaves [0, 1] (negative potential transpiration below the lower threshold)", loc=fi.loc(st))
+            else:
+                chk.ok("C04.l", where, construct, f"evaluated only after `{x}` was compared with both {lo} and {up}")
+    chk.floor("C04.l", n, 3, "logistic stress curves")
